@@ -736,3 +736,47 @@ impl DetailedGridItemsInfo {
         }
     }
 }
+
+/// Verification hook (only with `--cfg taffy_verif`): runs exactly the placement part of [`compute_grid_layout`]
+/// (grid size estimate → occupancy matrix → [`place_grid_items`]) on a list of in-flow children given by their
+/// `(grid_row, grid_column)` placements. Returns the placed items in placement-record order as
+/// `(child index, row start, row end, column start, column end)` in origin-zero coordinates, and the final
+/// `(negative_implicit, explicit, positive_implicit)` counts of the columns and of the rows.
+#[cfg(taffy_verif)]
+#[allow(clippy::type_complexity)]
+pub fn verif_place_grid_items(
+    explicit_col_count: u16,
+    explicit_row_count: u16,
+    grid_auto_flow: crate::style::GridAutoFlow,
+    children: &[(Line<crate::style::GridPlacement>, Line<crate::style::GridPlacement>)],
+) -> (Vec<(usize, i16, i16, i16, i16)>, (u16, u16, u16), (u16, u16, u16)) {
+    let styles: Vec<crate::Style> = children
+        .iter()
+        .map(|(row, col)| crate::Style { grid_row: *row, grid_column: *col, ..Default::default() })
+        .collect();
+    let (est_col_counts, est_row_counts) =
+        compute_grid_size_estimate(explicit_col_count, explicit_row_count, styles.iter());
+    let mut items = Vec::with_capacity(styles.len());
+    let mut cell_occupancy_matrix = CellOccupancyMatrix::with_track_counts(est_col_counts, est_row_counts);
+    let in_flow_children_iter =
+        || styles.iter().enumerate().map(|(index, style)| (index, NodeId::from(index), style));
+    place_grid_items(
+        &mut cell_occupancy_matrix,
+        &mut items,
+        in_flow_children_iter,
+        grid_auto_flow,
+        AlignItems::Stretch,
+        AlignItems::Stretch,
+    );
+    let final_col_counts = *cell_occupancy_matrix.track_counts(AbsoluteAxis::Horizontal);
+    let final_row_counts = *cell_occupancy_matrix.track_counts(AbsoluteAxis::Vertical);
+    let placed = items
+        .iter()
+        .map(|item| (item.source_order as usize, item.row.start.0, item.row.end.0, item.column.start.0, item.column.end.0))
+        .collect();
+    (
+        placed,
+        (final_col_counts.negative_implicit, final_col_counts.explicit, final_col_counts.positive_implicit),
+        (final_row_counts.negative_implicit, final_row_counts.explicit, final_row_counts.positive_implicit),
+    )
+}
